@@ -351,6 +351,7 @@ fn sup_spec(sb: &Sandbox, args: Vec<Vec<u8>>, rules: Vec<Rule>, sched: Sched) ->
         sched,
         log_all: false,
         extra_env: vec![],
+        stdout_to: None,
     }
 }
 
